@@ -9,6 +9,13 @@ from . import common
 from .common import BaseProp
 
 EPS = 1e-6
+_FE = ref.fr(EPS)
+
+
+def within(t, t0, t1):
+    """the statement's membership test in exact arithmetic: inside [t0, t1] widened by the 1e-6 tolerance (open ends)"""
+    ft = ref.fr(t)
+    return ref.fr(t0) - _FE < ft < ref.fr(t1) + _FE
 
 
 def dirty(rng, s):
@@ -133,10 +140,10 @@ class Prop(BaseProp):
                 ctx.expect(b.t_start == t0 and b.t_end == t1, "reconcile:edges", "train %d has edges [%r,%r], expected [%r,%r]" % (q, b.t_start, b.t_end, t0, t1))
                 sp = np.asarray(b.spikes, dtype=float)
                 ctx.expect(bool(np.all(np.diff(sp) > 0)), "reconcile:not-strictly-increasing", "train %d: %s" % (q, common.short(sp.tolist())))
-                want = sorted({float(t) for t in np.asarray(a.spikes).tolist() if t0 - EPS < t < t1 + EPS})
+                want = sorted({float(t) for t in np.asarray(a.spikes).tolist() if within(t, t0, t1)})
                 for t in np.asarray(a.spikes).tolist():
                     if t < t0 or t > t1:
-                        if t0 - EPS < t < t1 + EPS:
+                        if within(t, t0, t1):
                             ctx.count("reconcile_outside_kept_1e-7")
                         else:
                             ctx.count("reconcile_outside_dropped_1e-5")
@@ -155,7 +162,7 @@ class Prop(BaseProp):
             for q, (a, b) in enumerate(zip(sin, sout)):
                 ctx.expect(b is not a and not np.shares_memory(np.asarray(a.spikes), np.asarray(b.spikes)), "reconcile:returns-input-object",
                            "sorted input train %d is returned / aliased" % q)
-                want = [float(t) for t in np.asarray(a.spikes).tolist() if t0 - EPS < t < t1 + EPS]
+                want = [float(t) for t in np.asarray(a.spikes).tolist() if within(t, t0, t1)]
                 ctx.expect(np.asarray(b.spikes, dtype=float).tolist() == want and b.t_start == t0 and b.t_end == t1, "reconcile:spike-set",
                            "sorted input train %d: got %s on [%r,%r], expected %s on [%r,%r]" % (q, common.short(np.asarray(b.spikes).tolist()), b.t_start, b.t_end, common.short(want), t0, t1))
         # every measure reconciles by default: trains with different edges give the result of the reconciled list.
@@ -252,7 +259,7 @@ class Prop(BaseProp):
             ctx.expect(d is None, "stale-state-after-inplace-edit:edges:" + name,
                        "%s(Reconcile=False) on trains whose edges were changed in place differs from fresh trains with the same content: %s" % (name, d))
         rr = ctx.call(reconcile_spike_trains, [h, other], _name="reconcile_spike_trains")
-        want = sorted({float(t) for t in h.spikes.tolist() if ts - EPS < t < te + EPS})
+        want = sorted({float(t) for t in h.spikes.tolist() if within(t, ts, te)})
         ctx.expect(np.asarray(rr[0].spikes, dtype=float).tolist() == want, "stale-state-after-inplace-edit:reconcile",
                    "reconcile of an edited train returns %s, its current distinct spike times are %s" % (common.short(np.asarray(rr[0].spikes).tolist()), common.short(want)))
         # ---- history on ONE list object: use it, replace an element in place, use it again at once.
